@@ -161,6 +161,17 @@ func checkRunEvents(h *histRun, op *opSpec, evs []eventRec, runErr error, writte
 			if !cyc && !missing && !ioFault && !fingerprintError(err) && !(err != nil && strings.Contains(err.Error(), "no such file")) {
 				return bad(fmt.Sprintf("a failed event without an evaluating event requires a missing or cyclic dependency, got %v", err))
 			}
+			if t := h.p.target(l); missing && !ioFault && t != nil {
+				// ... a dependency of this very target: what depends on a target that failed
+				// for want of a dependency reports nothing of its own
+				own := false
+				for _, d := range t.Deps {
+					own = own || h.p.resolve(d) == nil
+				}
+				if !own {
+					return bad(fmt.Sprintf("every dependency this target names exists, yet it reports %v", err))
+				}
+			}
 		case "TargetEvaluating":
 			last := w[len(w)-1].Kind
 			if last != "TargetSucceeded" && last != "TargetFailed" {
